@@ -155,6 +155,8 @@ int main(int argc, char **argv)
             while(fr > 0)
             {
                 long long n = fr > 65536 ? 65536 : fr;
+                alarm(20); // the watchdog guards ONE library call: a minute of audio on 8 chips is 41 calls, and on a busy
+                           // machine all of them together took longer than the 20 s of one call (false "Crash" records)
                 r = opn2_generate(dev, (int)(n * 2), pcm.data());
                 fr -= n;
             }
